@@ -91,6 +91,67 @@ Proof.
   - exists W, W, nil, nil, nil. reflexivity.
 Qed.
 
+(* Non-vacuity of the program-level hypotheses: a one-function table accepted by the checker, two
+   goroutines each completing one call on the same shared object; this is a program_trace, and
+   program_race_free yields the release/acquire chain between the two writes. *)
+Definition demo_tbl : list (field * cls) := [("T.f"%string, CGuard "T.mu")].
+Definition demo_path : list item :=
+  [IEv (SAcq "o" "T.mu" W); IEv (SAcc AWr "o" "T.f"); IEv (SRel "o" "T.mu" W)].
+Definition demo_s : summary :=
+  {| s_name := "T.Set"; s_owner := "T.Set"; s_api := true; s_recv := "o"; s_recvty := "T";
+     s_borrowed := []; s_paths := [demo_path] |}.
+Definition demo_thread : list cevent :=
+  [Acq (Shared 0, "T.mu"%string) W; Wr (Shared 0, "T.f"%string); Rel (Shared 0, "T.mu"%string) W].
+Definition demo_rho : env := fun o => if is_fresh o then Private 0 else Shared 0.
+
+Example C08_demo_table_ok : table_okb demo_tbl [] [demo_s] = true.
+Proof. vm_compute. reflexivity. Qed.
+
+Example C08_demo_program :
+  program_trace [demo_s] (map (pair 0) demo_thread ++ map (pair 1) demo_thread).
+Proof.
+  assert (Hcalls : calls [demo_s] [] demo_thread).
+  { rewrite <- (app_nil_r demo_thread).
+    apply (calls_cons [demo_s] [] demo_s demo_path demo_rho demo_thread []).
+    - left; reflexivity.
+    - reflexivity.
+    - left; reflexivity.
+    - intros o Ho. unfold demo_rho. rewrite Ho. reflexivity.
+    - unfold demo_path, demo_thread.
+      change (Acq (Shared 0, "T.mu"%string) W) with (inst demo_rho (SAcq "o" "T.mu" W)).
+      change (Wr (Shared 0, "T.f"%string)) with (inst demo_rho (SAcc AWr "o" "T.f")).
+      change (Rel (Shared 0, "T.mu"%string) W) with (inst demo_rho (SRel "o" "T.mu" W)).
+      repeat apply den_ev. apply den_nil.
+    - discriminate.
+    - apply calls_nil. }
+  split.
+  - cbn. repeat split; try (intros ? ? [E|[]]; discriminate); try (intros ? ? []); auto.
+  - intros [|[|t]].
+    + exists [], demo_thread, []. split; [exact Hcalls|reflexivity].
+    + exists [], demo_thread, []. split; [exact Hcalls|reflexivity].
+    + exists [], [], []. split; [apply calls_nil|reflexivity].
+Qed.
+
+Example C08_demo_chain :
+  exists m1 m2 b1 b2 b3,
+    [(0, Rel (Shared 0, "T.mu"%string) W); (1, Acq (loc := cloc) (Shared 0, "T.mu"%string) W)]
+    = b1 ++ (0, Rel (Shared 0, "T.mu"%string) m1) :: b2 ++ (1, Acq (Shared 0, "T.mu"%string) m2) :: b3.
+Proof.
+  destruct (program_race_free demo_tbl [] [demo_s] (table_okb_summaries demo_tbl [] [demo_s] C08_demo_table_ok)
+              _ C08_demo_program
+              [(0, Acq (Shared 0, "T.mu"%string) W)] 0 (Wr (Shared 0, "T.f"%string))
+              [(0, Rel (Shared 0, "T.mu"%string) W); (1, Acq (Shared 0, "T.mu"%string) W)] 1 (Wr (Shared 0, "T.f"%string))
+              [(1, Rel (Shared 0, "T.mu"%string) W)] 0 "T.f"%string "T.mu"%string)
+    as (m1 & m2 & b1 & b2 & b3 & Hb & _).
+  - reflexivity.
+  - discriminate.
+  - split; reflexivity.
+  - right; reflexivity.
+  - right; reflexivity.
+  - left; reflexivity.
+  - eauto 10.
+Qed.
+
 (* the regenerated table is not empty and contains entry points *)
 Example C08_table_nonempty : existsb s_api summaries = true /\ 100 <= List.length summaries.
 Proof. split; [vm_compute; reflexivity|]. apply PeanoNat.Nat.leb_le. vm_compute. reflexivity. Qed.
